@@ -101,5 +101,6 @@ pub fn calm_layout() -> LayoutCfg {
         lone_cr: false,
         multibyte: true,
         no_sep: false,
+        newline_heavy: false,
     }
 }
